@@ -4,6 +4,7 @@ package main
 
 import (
 	"fmt"
+	"os"
 	"go/ast"
 	"go/constant"
 	"go/token"
@@ -13,6 +14,8 @@ import (
 
 	"golang.org/x/tools/go/ssa"
 )
+
+var idxProbe func(idx string)
 
 type Env struct {
 	fc       *FnCtx
@@ -24,6 +27,7 @@ type Env struct {
 	oldAc    string
 	pkg      *types.Package
 	depth    int
+	phiNames map[string]bool
 }
 
 func (fc *FnCtx) newEnv(cur, old *State) *Env {
@@ -140,7 +144,7 @@ func (env *Env) eval(x Expr) V {
 		if e.Hi != nil {
 			hi = fc.toInt64(env.constTo(env.eval(e.Hi), types.Typ[types.Int]))
 		}
-		return V{Ty: b.Ty, T: []string{b.T[0], sx("bvadd", b.T[1], lo), sx("bvsub", hi, lo), sx("bvsub", b.T[3], lo)}}
+		return V{Ty: b.Ty, T: []string{b.T[0], add64(b.T[1], lo), sub64(hi, lo), sub64(b.T[3], lo)}}
 	case *ESel:
 		return env.selector(e)
 	case *EQuant:
@@ -176,7 +180,11 @@ func (env *Env) indexV(b V, i string) V {
 	switch {
 	case isSlice(b.Ty):
 		et := elemOf(b.Ty)
-		return fc.load(env.cur, &Loc{Kind: locElem, Ref: b.T[0], Idx: sx("bvadd", b.T[1], i), Ty: et})
+		idx := add64(b.T[1], i)
+		if idxProbe != nil {
+			idxProbe(idx)
+		}
+		return fc.load(env.cur, &Loc{Kind: locElem, Ref: b.T[0], Idx: idx, Ty: et})
 	case isString(b.Ty):
 		return V{Ty: types.Typ[types.Uint8], T: []string{sx("select", sx("strarr", b.T[0]), i)}}
 	}
@@ -187,6 +195,12 @@ func (env *Env) ident(name string) V {
 	fc := env.fc
 	if v, ok := env.bound[name]; ok {
 		return v
+	}
+	if env.at != nil && !env.phiNames[name] {
+		// at a loop header a local assignment shadows the parameter of the same name
+		if v, ok := fc.localAt(env.at, name); ok {
+			return v
+		}
 	}
 	if v, ok := env.vars[name]; ok {
 		return v
@@ -518,7 +532,56 @@ func (env *Env) quant(e *EQuant) V {
 		}
 		env.bound[qv.Name] = v
 	}
+	// Change of variable for an integer index: if the body reads s[... + i ...], quantify over the absolute index
+	// K = off + ... + i instead (i := K - rest; a bijection on 64-bit vectors), so that the select terms have a plain
+	// variable as index and match every other select on the same array.
+	if os.Getenv("GOVC_COV") != "" && len(e.Vars) == 1 && len(binders) == 1 && strings.HasSuffix(binders[0], " (_ BitVec 64))") && len(e.Pats) == 0 {
+		bv := env.bound[e.Vars[0].Name].T[0]
+		var found *Lin
+		saveProbe := idxProbe
+		idxProbe = func(idx string) {
+			if found != nil {
+				return
+			}
+			l := linOf(idx)
+			if l.atoms[bv] != 1 {
+				return
+			}
+			for a := range l.atoms {
+				if a != bv && strings.Contains(a, "|q") {
+					return
+				}
+			}
+			found = l
+		}
+		func() {
+			defer func() { idxProbe = saveProbe }()
+			env.evalBool(e.Body)
+		}()
+		if found != nil {
+			rest := &Lin{c: found.c, atoms: map[string]uint64{}}
+			for a, c := range found.atoms {
+				if a != bv {
+					rest.atoms[a] = c
+				}
+			}
+			if len(rest.atoms) > 0 || rest.c != 0 {
+				fc.qctr++
+				k := fmt.Sprintf("|q%d_K|", fc.qctr)
+				binders = []string{fmt.Sprintf("(%s (_ BitVec 64))", k)}
+				env.bound[e.Vars[0].Name] = V{Ty: env.bound[e.Vars[0].Name].Ty, T: []string{sub64(k, linTerm(rest))}}
+			}
+		}
+	}
 	body := env.evalBool(e.Body)
+	if len(e.Pats) > 0 {
+		var ps []string
+		for _, pe := range e.Pats {
+			pv := env.eval(pe)
+			ps = append(ps, pv.T...)
+		}
+		body = fmt.Sprintf("(! %s :pattern (%s))", body, strings.Join(ps, " "))
+	}
 	for _, qv := range e.Vars {
 		delete(env.bound, qv.Name)
 		if old, ok := save[qv.Name]; ok {
@@ -629,6 +692,32 @@ func (env *Env) callExpr(e *ECall) V {
 		ch := env.eval(e.Args[0])
 		arr := fc.heapGet(env.cur, "ghost:closed", fieldSort(sBool))
 		return boolV(sx("select", arr, ch.T[0]))
+	case "v4mapped":
+		// net.IP's IPv4-in-IPv6 form: 16 octets with the prefix 00*10 ff ff. The twelve byte tests are stated once per
+		// (backing array, offset) as the definition of an uninterpreted predicate, so that terms mentioning it stay small.
+		argc(1)
+		ip := env.eval(e.Args[0])
+		mem := fc.heapGet(env.cur, "M:bv8.", memSort(sBV(8)))
+		inner := sx("select", mem, ip.T[0])
+		off := ip.T[1]
+		if !strings.Contains(inner+off, "|q") {
+			inner = fc.def("inner", arrSort(sBV(64), sBV(8)), inner)
+			off = fc.def("off", sBV(64), off)
+		}
+		key := "ismapped:" + inner + ":" + off
+		if !fc.declared[key] && !strings.Contains(inner+off, "|q") {
+			fc.declared[key] = true
+			var cs []string
+			for k := 0; k < 12; k++ {
+				want := "#x00"
+				if k >= 10 {
+					want = "#xff"
+				}
+				cs = append(cs, eq(sx("select", inner, add64(off, bvLit(uint64(k), 64))), want))
+			}
+			fc.assumeGlobal(eq(sx("ismapped", inner, off), and(cs...)))
+		}
+		return boolV(and(eq(ip.T[2], bvLit(16, 64)), sx("ismapped", inner, off)))
 	case "f32bits":
 		argc(1)
 		v := env.eval(e.Args[0])
@@ -916,10 +1005,10 @@ func (env *Env) resolveTarget(text string) []modTarget {
 		case *EIndex:
 			b = env.withState(env.old, func() V { return env.eval(s.X) })
 			lo = fc.toInt64(env.constTo(env.withState(env.old, func() V { return env.eval(s.I) }), types.Typ[types.Int]))
-			hi = sx("bvadd", lo, bvLit(1, 64))
+			hi = add64(lo, bvLit(1, 64))
 		}
 		et := elemOf(b.Ty)
-		mt := modTarget{kind: "mem", ref: b.T[0], lo: sx("bvadd", b.T[1], lo), hi: sx("bvadd", b.T[1], hi)}
+		mt := modTarget{kind: "mem", ref: b.T[0], lo: fc.def("tlo", sBV(64), add64(b.T[1], lo)), hi: fc.def("thi", sBV(64), add64(b.T[1], hi))}
 		for _, c := range fc.e.comps(et) {
 			mt.keys = append(mt.keys, fc.e.memKey(et)+"."+c.Suf)
 			mt.sorts = append(mt.sorts, c.Sort)
@@ -962,10 +1051,20 @@ func (env *Env) resolveTarget(text string) []modTarget {
 }
 
 func (fc *FnCtx) havocTarget(env *Env, old *State, text string, pos token.Pos) {
-	envOld := &Env{fc: fc, vars: env.vars, bound: env.bound, cur: old, old: old, oldAc: old.ac, pkg: env.pkg, contract: env.contract}
+	fc.havocTargetX(env, old, text, pos, true)
+}
+
+func (fc *FnCtx) havocTargetNoCheck(env *Env, old *State, text string) {
+	fc.havocTargetX(env, old, text, token.NoPos, false)
+}
+
+func (fc *FnCtx) havocTargetX(env *Env, old *State, text string, pos token.Pos, check bool) {
+	envOld := &Env{fc: fc, vars: env.vars, bound: env.bound, cur: old, old: old, oldAc: old.ac, pkg: env.pkg, contract: env.contract, at: env.at}
 	for _, mt := range envOld.resolveTarget(text) {
 		// the caller itself must be allowed to modify what its callee modifies
-		fc.frameCheckTarget(mt, pos, text)
+		if check {
+			fc.frameCheckTarget(mt, pos, text)
+		}
 		for i, key := range mt.keys {
 			switch mt.kind {
 			case "field", "ghost":
@@ -1012,9 +1111,34 @@ func (fc *FnCtx) ownTargets() []modTarget {
 	return out
 }
 
+// frames: the function's own modifies clause (if any) and the explicit frames of the loops the current block is in.
+type frameSpec struct {
+	targets []modTarget
+	ac      string
+	text    string
+	label   string
+}
+
+func (fc *FnCtx) activeFrames() []frameSpec {
+	var out []frameSpec
+	if fc.c != nil && fc.c.HasMod {
+		out = append(out, frameSpec{fc.ownTargets(), fc.entry.ac, "modifies " + strings.Join(fc.c.Modifies, ", "), ""})
+	}
+	for h, lf := range fc.loopTargets {
+		if fc.loopBody[h][fc.curBlock] {
+			out = append(out, frameSpec{lf.targets, lf.ac, "loop modifies " + lf.text, fmt.Sprintf("loop%d.", fc.loopOrd[h])})
+		}
+	}
+	return out
+}
+
 func (fc *FnCtx) frameGoal(key, ref, idx string) string {
-	alts := []string{sx(">=", ref, fc.entry.ac)} // allocated by this function
-	for _, t := range fc.ownTargets() {
+	return fc.frameGoalF(frameSpec{fc.ownTargets(), fc.entry.ac, "", ""}, key, ref, idx)
+}
+
+func (fc *FnCtx) frameGoalF(fs frameSpec, key, ref, idx string) string {
+	alts := []string{sx(">=", ref, fs.ac)} // allocated after the frame began
+	for _, t := range fs.targets {
 		for _, k := range t.keys {
 			if k != key {
 				continue
@@ -1035,11 +1159,8 @@ func (fc *FnCtx) frameGoal(key, ref, idx string) string {
 }
 
 func (fc *FnCtx) frameCheck(loc *Loc, pos token.Pos) {
-	if fc.c == nil || !fc.c.HasMod || fc.dry {
+	if fc.dry {
 		return
-	}
-	if strings.HasPrefix(loc.S, "cell:") && loc.Kind == locField {
-		// local cells allocated here are covered by the freshness alternative
 	}
 	cs := fc.e.comps(loc.Ty)
 	if len(cs) == 0 {
@@ -1052,53 +1173,71 @@ func (fc *FnCtx) frameCheck(loc *Loc, pos token.Pos) {
 		key = fc.e.memKey(loc.Ty) + "." + cs[0].Suf
 		idx = loc.Idx
 	}
-	goal := fc.frameGoal(key, loc.Ref, idx)
-	if goal == "true" {
-		return
+	for _, fs := range fc.activeFrames() {
+		if fs.label == "" && fc.localRefs[loc.Ref] {
+			continue // allocated by this very function
+		}
+		goal := fc.frameGoalF(fs, key, loc.Ref, idx)
+		if goal == "true" {
+			continue
+		}
+		fc.oblige("frame", fs.label+"store{"+fc.srcText(pos, isAssignLike)+"}", goal, pos, fc.cprops(), fs.text)
 	}
-	fc.oblige("frame", "store{"+fc.srcText(pos, isAssignLike)+"}", goal, pos, fc.c.Props, "modifies "+strings.Join(fc.c.Modifies, ", "))
+}
+
+func (fc *FnCtx) cprops() []string {
+	if fc.c != nil {
+		return fc.c.Props
+	}
+	return nil
 }
 
 func (fc *FnCtx) frameCheckMem(b V, pos token.Pos) {
-	if fc.c == nil || !fc.c.HasMod || fc.dry {
+	fc.frameCheckMemN(b, b.T[2], pos)
+}
+
+// frameCheckMemN: the first n elements of b are written.
+func (fc *FnCtx) frameCheckMemN(b V, n string, pos token.Pos) {
+	if fc.dry {
 		return
 	}
 	et := elemOf(b.Ty)
 	key := fc.e.memKey(et) + "." + fc.e.comps(et)[0].Suf
-	// the whole written slice must be inside a listed range, or fresh, or empty
-	alts := []string{sx(">=", b.T[0], fc.entry.ac), eq(b.T[2], bvLit(0, 64))}
-	for _, t := range fc.ownTargets() {
-		for _, k := range t.keys {
-			if k == key && t.kind == "mem" {
-				alts = append(alts, and(eq(b.T[0], t.ref), sx("bvule", t.lo, b.T[1]), sx("bvule", sx("bvadd", b.T[1], b.T[2]), t.hi)))
-			}
-		}
-	}
-	fc.oblige("frame", "write{"+fc.srcText(pos, isKind[*astCall])+"}", or(alts...), pos, fc.c.Props, "modifies "+strings.Join(fc.c.Modifies, ", "))
-}
-
-func (fc *FnCtx) frameCheckTarget(mt modTarget, pos token.Pos, text string) {
-	if fc.c == nil || !fc.c.HasMod || fc.dry {
-		return
-	}
-	if len(mt.keys) == 0 {
-		return
-	}
-	var goal string
-	if mt.kind == "mem" {
-		alts := []string{sx(">=", mt.ref, fc.entry.ac), sx("bvuge", mt.lo, mt.hi)}
-		for _, t := range fc.ownTargets() {
+	for _, fs := range fc.activeFrames() {
+		// the whole written slice must be inside a listed range, or fresh, or empty
+		alts := []string{sx(">=", b.T[0], fs.ac), eq(n, bvLit(0, 64))}
+		for _, t := range fs.targets {
 			for _, k := range t.keys {
-				if k == mt.keys[0] && t.kind == "mem" {
-					alts = append(alts, and(eq(mt.ref, t.ref), sx("bvule", t.lo, mt.lo), sx("bvule", mt.hi, t.hi)))
+				if k == key && t.kind == "mem" {
+					alts = append(alts, and(eq(b.T[0], t.ref), sx("bvule", t.lo, b.T[1]), sx("bvule", add64(b.T[1], n), t.hi)))
 				}
 			}
 		}
-		goal = or(alts...)
-	} else {
-		goal = fc.frameGoal(mt.keys[0], mt.ref, "")
+		fc.oblige("frame", fs.label+"write{"+fc.srcText(pos, isKind[*astCall])+"}", or(alts...), pos, fc.cprops(), fs.text)
 	}
-	fc.oblige("frame", "call{"+fc.srcText(pos, isKind[*astCall])+"}.modifies{"+text+"}", goal, pos, fc.c.Props, "modifies "+strings.Join(fc.c.Modifies, ", "))
+}
+
+func (fc *FnCtx) frameCheckTarget(mt modTarget, pos token.Pos, text string) {
+	if fc.dry || len(mt.keys) == 0 {
+		return
+	}
+	for _, fs := range fc.activeFrames() {
+		var goal string
+		if mt.kind == "mem" {
+			alts := []string{sx(">=", mt.ref, fs.ac), sx("bvuge", mt.lo, mt.hi)}
+			for _, t := range fs.targets {
+				for _, k := range t.keys {
+					if k == mt.keys[0] && t.kind == "mem" {
+						alts = append(alts, and(eq(mt.ref, t.ref), sx("bvule", t.lo, mt.lo), sx("bvule", mt.hi, t.hi)))
+					}
+				}
+			}
+			goal = or(alts...)
+		} else {
+			goal = fc.frameGoalF(fs, mt.keys[0], mt.ref, "")
+		}
+		fc.oblige("frame", fs.label+"call{"+fc.srcText(pos, isKind[*astCall])+"}.modifies{"+text+"}", goal, pos, fc.cprops(), fs.text)
+	}
 }
 
 type astCall = ast.CallExpr
